@@ -601,6 +601,11 @@ func (en *DefaultEngine) Flush(ctx context.Context, w io.Writer) (int, error) {
 	}
 	if err != nil {
 		if len(en.exit) == 0 {
+			if en.exiting {
+				// the session has ended even though its last page cannot be shown
+				en.reset(ctx)
+				en.exiting = false
+			}
 			return 0, err
 		}
 		// a node without a template may end the session with the bare exit value; if the
